@@ -88,6 +88,18 @@ def has(d, k):
     return k in d
 
 
+def store(arr, i, v):
+    a = list(arr)
+    while len(a) <= i:
+        a.append(0)
+    a[i] = v
+    return a
+
+
+def define(f):
+    pass
+
+
 def content(f):
     """Bytes of a file-like object / list (native twin of the ghost view)."""
     if hasattr(f, "getvalue"):
